@@ -218,6 +218,13 @@ def archive_predicate(script: dict, rec: dict) -> tuple[str, str, dict] | None:
         else:
             ok = s["warn"] == 0 and s["task"] != bh.REL and (not atomic or s["bonds"])
         pos = np.array(s["pos"], dtype=float)
+        conv_req = (script.get("trace") or {}).get("conv", 1e-6) if "trace" in script else None
+        if ok and conv_req is not None and s.get("pg") is not None and k not in (rec.get("injected") or ()) and \
+                str(s["task"]).startswith("CONVERGENCE: NORM_OF_PROJECTED") and s["pg"] > conv_req * (1.0 + 1e-9):
+            return ("archived-minimum-misses-the-runs-criterion",
+                    f"{'first minimisation' if k == 0 else f'step {k}'}: the minimiser reported convergence on the gradient "
+                    f"criterion and the result is archived, but the projected gradient there is {s['pg']:.3e}; the run was "
+                    f"asked for {conv_req:g}", {"step": k - 1})
         if ok:
             good.append((pos, float(s["e"])))
             if not represented(pos, float(s["e"]), snap_after, s):
@@ -300,10 +307,54 @@ def metropolis_frequency(ctx: Ctx) -> None:
                          {"metropolis_frequency": [x, T, K]})
 
 
+def pred_restart_from_stored(seed: int) -> tuple[str, str, dict] | None:
+    """a second run on the same objects started from a STORED minimum, the way the example scripts do it
+    (`coords.position = ktn.get_minimum_coords(i)`, which hands over the network's own array): what the network holds
+    after the first run is still there, bit for bit, after the second — stored minima are outputs of the minimiser, and
+    nothing moves them afterwards"""
+    import topsearch.global_optimisation.basin_hopping as bhmod
+    from topsearch.data.coordinates import StandardCoordinates
+    from topsearch.data.kinetic_transition_network import KineticTransitionNetwork
+    from topsearch.global_optimisation.perturbations import StandardPerturbation
+    from topsearch.potentials.test_functions import Camelback
+    from topsearch.similarity.similarity import StandardSimilarity
+    np.random.seed(seed)
+    coords = StandardCoordinates(ndim=2, bounds=bh.STD_BOUNDS)
+    ktn = KineticTransitionNetwork()
+    run = bhmod.BasinHopping(ktn=ktn, potential=Camelback(), similarity=StandardSimilarity(0.1, 0.1),
+                             step_taking=StandardPerturbation(max_displacement=1.5, proportional_distance=False))
+    try:
+        run.run(coords, 12, 1e-6, 1.0)
+        for cycle in range(3):
+            if ktn.n_minima == 0:
+                return None
+            before = [(np.array(ktn.get_minimum_coords(i), dtype=float, copy=True), float(ktn.get_minimum_energy(i)))
+                      for i in range(ktn.n_minima)]
+            coords.position = ktn.get_minimum_coords((seed + cycle) % ktn.n_minima)       # the network's own array
+            run.run(coords, 8, 1e-6, 1.0)
+            for i, (c, e) in enumerate(before):
+                c2, e2 = np.asarray(ktn.get_minimum_coords(i), dtype=float), float(ktn.get_minimum_energy(i))
+                if not (np.array_equal(c, c2) and e == e2):
+                    return ("stored-minimum-moved-by-a-later-run",
+                            f"minimum {i} was stored at {c.tolist()} (E={e}); after a further run started from stored minimum "
+                            f"{(seed + cycle) % len(before)} it reads {c2.tolist()} (E={e2})", {"restart": True, "seed": seed})
+    except Exception as e:  # noqa: BLE001
+        return ("run-raises", f"BasinHopping.run raised {type(e).__name__}: {e} in a restart from a stored minimum",
+                {"restart": True, "seed": seed})
+    return None
+
+
 def predicates(ctx: Ctx) -> None:
     rng = ctx.rng
     deep = getattr(ctx, "deep_search", False)
     bh.bond_oracle(ctx)          # "with its bonding intact" is judged by this test
+    for _k in range(ctx.scale(4, 20)):
+        sd = rng.randrange(10 ** 6)
+        r = pred_restart_from_stored(sd)
+        ctx.stats.case({"stream": "predicate-restart-from-stored", "seed": sd}, True)
+        if r:
+            ctx.fail(*r)
+            break
     # corpus: the boundary draw u == exp(-dE/T) and a failed downhill step
     metropolis_predicate(ctx, [(0.0, 1.0, 1.0, float(np.exp(-1.0))), (0.0, 1.0, 1.0, float(np.nextafter(np.exp(-1.0), 0))),
                                (1.0, 0.0, 1.0, 0.999), (0.0, 0.0, 1.0, 0.999), (0.0, 1.0, 1e-6, 0.0)])
@@ -360,6 +411,11 @@ def replay(ctx: Ctx, data: dict) -> bool:
     r = None
     if "bond_oracle" in data:
         r = bh.bond_oracle_predicate(data["bond_oracle"]["pts"], data["bond_oracle"]["cutoff"])
+        if r:
+            print(f"  {r[0]}: {r[1]}")
+        return r is None
+    if data.get("restart"):
+        r = pred_restart_from_stored(int(data["seed"]))
         if r:
             print(f"  {r[0]}: {r[1]}")
         return r is None
